@@ -301,6 +301,19 @@ func runC04(c *mon.Ctx) {
 			}
 			impl := gmsl.MustGetRoomVersion(ver)
 			ps := genProto(r, t)
+			if k < len(gen.ProtectedTypes) && !(t.Domainless && ps.Type == "m.room.create") {
+				// directed: every protected type, with every content key that any version's algorithm keeps for it
+				// present (over the shards every (version, type) cell is visited)
+				typ := gen.ProtectedTypes[(k+c.Shard)%len(gen.ProtectedTypes)]
+				if !(t.Domainless && typ == "m.room.create") {
+					ps.Type = typ
+					ps.StateKey = strp(gen.Pick(r, []string{"", "@bob:b.example"}))
+					ps.Content = gen.Plain().Bytes(gen.FullContentFor(r, typ, gen.SafeNumbers))
+					if typ == "m.room.redaction" {
+						ps.Redacts = fakeEventID(r, t)
+					}
+				}
+			}
 			ev, err := buildEvent(ver, ps, id, baseTime)
 			if err != nil && t.EnforceCanon && ps.Depth > 9007199254740991 {
 				continue // versions 6+ cannot carry such a depth (C03 asserts that)
